@@ -133,6 +133,7 @@ class DeviceCodec:
 class Op:
     def __init__(self, name: str, task: asyncio.Task, started: float):
         self.name = name
+        self.base = name
         self.task = task
         self.started = started
         self.finished_at: float | None = None
@@ -229,7 +230,14 @@ class World:
         fut = self.loop.create_future()
         self.tcp_futs.append(fut)
         self.tcp_call_times.append(self.loop.time())
-        return await fut
+        try:
+            return await fut
+        except BaseException:
+            # like aiohappyeyeballs: a socket that is already connected when the
+            # attempt is cancelled is closed by the library
+            if fut.done() and not fut.cancelled() and fut.exception() is None:
+                fut.result().close()
+            raise
 
     async def _create_connection(self, protocol_factory, host=None, port=None, *, sock=None, **kw):
         protocol = protocol_factory()
